@@ -128,14 +128,14 @@ def sem_prop(pid, pbit, modes, step_names, extra_quick=(), extra_thorough=()):
         def hj(v, pre, n, tier_list, lock="noop", est=300, bonus=False, suffix=""):
             tier_list.append(H(SEM, "hist_%s_%s_%s%s" % (tag, mt, v, suffix), "hold",
                                replay=("sem_hist_%s" % lock, sem_cfg(mv, pre)), mask=P(pbit), est_s=est,
-                               timeout=(900 if tier_list is quick else 3400), bonus=bonus,
+                               timeout=(1500 if tier_list is quick else 3400), bonus=bonus,
                                bounds="E-HIST: K=3 slots (re-creatable), %d operations from new() of which the first %d are "
                                       "fixed to 'poll a fresh future' (partition), %s%s" % (
                                           n, pre, alpha, ", MutexType=CheckLock" if lock == "check" else "")))
         hj("p0_n4", 0, 4, quick)
         if pid == "C05":
             # (the symbolic-fairness p2_n5 instance needs ~9 min; the 'steal' partition reaches the re-queue path in 2-3 min)
-            quick.append(H(SEM, "hist_c05_x_p1s_n5", "hold", replay=("sem_hist_noop", sem_cfg(mv, 1, 0, 1)), mask=P(pbit), est_s=300, est_gb=3.5, timeout=900,
+            quick.append(H(SEM, "hist_c05_x_p1s_n5", "hold", replay=("sem_hist_noop", sem_cfg(mv, 1, 0, 1)), mask=P(pbit), est_s=300, est_gb=3.5, timeout=1500,
                            bounds="E-HIST 'steal' partition: poll future #0, release(a), try_acquire(b) with symbolic amounts, then 2 arbitrary operations"))
             hj("p2_n5", 2, 5, thorough, est=1200)
         else:
@@ -167,7 +167,7 @@ PROPS = {
     "C05": sem_prop("C05", 5, [("x", 2)], ["step_c05", "step_c05_wide"]),
     "C06": sem_prop("C06", 6, [("u", 0), ("f", 1)],
                     ["step_c06_poll", "step_c06_drop", "step_c06_release", "step_c06_try"],
-                    extra_quick=[H(SEM, "hist_c06_u_p1s_n5", "hold", replay=("sem_hist_noop", sem_cfg(0, 1, 0, 1)), mask=P(6), est_s=300, est_gb=3.5, timeout=900,
+                    extra_quick=[H(SEM, "hist_c06_u_p1s_n5", "hold", replay=("sem_hist_noop", sem_cfg(0, 1, 0, 1)), mask=P(6), est_s=300, est_gb=3.5, timeout=1500,
                                    bounds="E-HIST unfair, 'steal' partition: poll future #0, release(a), try_acquire(b) with symbolic amounts, then 2 arbitrary "
                                           "operations (reaches a notified future that re-queues, incl. with another waker)"),H(SEM, "witness_cancel_head_p2_n4", "witness", replay=("sem_hist_noop", sem_cfg(2, 2)),
                                    mask=PALL, witness_bit=2, est_s=120,
@@ -192,14 +192,14 @@ def c20_prop():
           bounds="constructive step: any list over <= 5 nodes built by real add_front calls, then 1 arbitrary operation (a history from empty)"),
         H(LIST, "list_witness_buildstep_k4", "witness", replay=("list_buildstep", 4), witness_bit=1, est_s=40,
           bounds="witness twin: a middle node is removed"),
-        H(HEAP, "heap_step_k4", "step", profile="full", est_s=340, timeout=900,
+        H(HEAP, "heap_step_k4", "step", profile="full", est_s=340, timeout=1500,
           bounds="E-STEP heap: ANY heap-ordered multiway tree over a subset of 4 nodes (symbolic parent map, sibling order, keys in a "
                  "3-value set), insert(non-member) | remove(any member); structural validator + peek_min minimality; all Kani default checks"),
         H(HEAP, "heap_hist_k3_n4", "hold", replay=("heap_hist", 3), est_s=120,
           bounds="E-HIST heap from empty: 3 nodes, <= 4 operations, keys 0..2, re-insertion allowed"),
         H(HEAP, "heap_hist_k4_p4_n6", "hold", replay=("heap_hist", 4 | (4 << 4)), est_s=200,
           bounds="E-HIST heap: insert 4 nodes (symbolic keys), then <= 2 arbitrary operations"),
-        H(HEAP, "heap_wide_k7", "hold", replay=("heap_wide", 0), est_s=300, est_gb=4, timeout=900,
+        H(HEAP, "heap_wide_k7", "hold", replay=("heap_wide", 0), est_s=300, est_gb=4, timeout=1500,
           bounds="E-HIST heap, partition 'wide': a minimal root and up to 6 children with symbolic keys built by real inserts, remove the root "
                  "(merge_children over up to 6 siblings) or a child, then drain through peek_min/remove"),
         H(HEAP, "heap_witness_k4_n6", "witness", replay=("heap_hist", 4 | (4 << 4)), witness_bit=2, est_s=200,
@@ -396,16 +396,16 @@ TIMER = "timer::timer::verif_timer::proofs"
 def c15_prop():
     quick = [
         H(TIMER, "step_c15_poll", "step", est_s=100, est_gb=2, bounds="E-STEP timer: ANY heap-ordered tree over the registered subset of 4 timer futures, deadlines and clock full u64, poll(A|B)"),
-        H(TIMER, "step_c15_drop", "step", est_s=300, est_gb=3, timeout=900, bounds="E-STEP timer: same pre-state, drop of any future (heap removal)"),
-        H(TIMER, "step_c15_check2", "step", est_s=300, est_gb=3.5, timeout=900,
+        H(TIMER, "step_c15_drop", "step", est_s=300, est_gb=3, timeout=1500, bounds="E-STEP timer: same pre-state, drop of any future (heap removal)"),
+        H(TIMER, "step_c15_check2", "step", est_s=300, est_gb=3.5, timeout=1500,
           bounds="E-STEP check_expirations over 2 timer futures (registered or not, deadlines and clock full u64, both heap shapes, wakers A|B): "
                  "exactly the due ones woken once through the latest waker, in deadline order; next_expiration() afterwards"),
         H(TIMER, "delay_full_range", "hold", replay=("timer_delay", 0), mask=P(15), est_s=60,
           bounds="delay(d) = deadline(now + d) saturating: Duration (secs u64, nanos < 1e9) and clock full range"),
-        H(TIMER, "hist_c15_k3_drop_a4", "hold", replay=("timer_hist_noop", 4 | (1 << 11)), mask=P(15), est_s=250, est_gb=3, timeout=900,
+        H(TIMER, "hist_c15_k3_drop_a4", "hold", replay=("timer_hist_noop", 4 | (1 << 11)), mask=P(15), est_s=250, est_gb=3, timeout=1500,
           bounds="E-HIST timer: K=3 slots (re-creatable), deadlines 0..3, 4 operations of {poll A|B, drop, advance clock 1|2}; "
                  "completion never early, next_expiration() after every operation (no check_expirations in this alphabet)"),
-        H(TIMER, "witness_drop_k3_a4", "witness", replay=("timer_hist_noop", 4 | (1 << 11)), mask=PALL, witness_bit=4, est_s=300, est_gb=4, timeout=900,
+        H(TIMER, "witness_drop_k3_a4", "witness", replay=("timer_hist_noop", 4 | (1 << 11)), mask=PALL, witness_bit=4, est_s=300, est_gb=4, timeout=1500,
           bounds="witness twin: a registered timer is dropped while another stays registered"),
     ]
     thorough = quick + [
@@ -453,7 +453,7 @@ def mpmc_cfg(cap, alpha, pre, stream=0):
 def mpmc_hist(tag, pbit, cap, alpha, pre, n, tier_quick=True, lock="noop", bonus=False):
     name = "hist_%s_c%d_%s_p%d_n%d%s" % (tag, cap, alpha, pre, n, "_check" if lock == "check" else "")
     return H(MPMC, name, "hold", replay=("mpmc_hist_%s" % lock, mpmc_cfg(cap, alpha, pre, 1 if alpha == "st" else 0)), mask=P(pbit),
-             est_s=200 if n <= 4 else 400, est_gb=3.5, timeout=(900 if tier_quick else 3400), bonus=bonus,
+             est_s=200 if n <= 4 else 400, est_gb=3.5, timeout=(1500 if tier_quick else 3400), bonus=bonus,
              bounds="E-HIST mpmc capacity %d: 2 send + 2 receive slots (re-creatable, uniquely tagged drop-counting values), %d operations "
                     "of which the first %d are fixed by partition #%d, alphabet {%s}%s" % (
                         cap, n, [0, 1, 1, 2, 2, 2, 2][pre], pre, ALPHA_TXT[alpha], ", MutexType=CheckLock" if lock == "check" else ""))
@@ -510,8 +510,8 @@ def c01_prop():
         H(ONESHOT_BC, "step_c01", "step", est_s=40, bounds="E-STEP oneshot-broadcast K=3", **full),
         H(STATE, "step_c01", "step", est_s=40, bounds="E-STEP state-broadcast K=3, ids full u64", **full),
         H(TIMER, "step_c01_poll", "step", est_s=150, est_gb=2.5, bounds="E-STEP timer K=4: heap = exactly the live registered futures (structural validator), poll", **full),
-        H(TIMER, "step_c01_drop", "step", est_s=400, est_gb=3, timeout=900, bounds="E-STEP timer K=4, drop (heap removal from ANY tree shape)", **full),
-        H(TIMER, "step_c01_check2", "step", est_s=400, est_gb=4, timeout=900, bounds="E-STEP check_expirations over 2 timer futures: expired ones unlinked, pending ones linked", **full),
+        H(TIMER, "step_c01_drop", "step", est_s=400, est_gb=3, timeout=1500, bounds="E-STEP timer K=4, drop (heap removal from ANY tree shape)", **full),
+        H(TIMER, "step_c01_check2", "step", est_s=400, est_gb=4, timeout=1500, bounds="E-STEP check_expirations over 2 timer futures: expired ones unlinked, pending ones linked", **full),
     ]
     for cap in (0, 1, 2):
         for cn in ("ps", "pr", "dc", "tc"):
@@ -520,7 +520,7 @@ def c01_prop():
     # a dropped future's task is never woken again (functional consequence of "no dangling waiter"), deeper, fast profile
     quick += [
         H(MUTEX, "hist_c01_p3_n7", "hold", replay=("mutex_hist_noop", 2 | (3 << 2)), mask=P(1), est_s=120, bounds="E-HIST mutex N=7 (3-poll prefix): the task of a dropped future is never woken; no panic"),
-        H(SEM, "hist_c01_x_p1s_n5", "hold", replay=("sem_hist_noop", sem_cfg(2, 1, 0, 1)), mask=P(1), est_s=300, est_gb=3.5, timeout=900, bounds="E-HIST semaphore 'steal' partition N=5: dropped futures never woken; no panic"),
+        H(SEM, "hist_c01_x_p1s_n5", "hold", replay=("sem_hist_noop", sem_cfg(2, 1, 0, 1)), mask=P(1), est_s=300, est_gb=3.5, timeout=1500, bounds="E-HIST semaphore 'steal' partition N=5: dropped futures never woken; no panic"),
         H(EVENT, "hist_c01_n5", "hold", replay=("event_hist_noop", 2), mask=P(1), est_s=100, bounds="E-HIST event N=5: dropped futures never woken"),
         H(ONESHOT_BC, "hist_c01_n5", "hold", replay=("oneshot_bc_hist_noop", 0), mask=P(1), est_s=100, bounds="E-HIST oneshot-broadcast N=5: dropped futures never woken"),
     ]
@@ -531,7 +531,7 @@ def c01_prop():
         H(EVENT, "hist_c01_n5_check", "hold", replay=("event_hist_check", 2), mask=P(1), est_s=200, bounds="E-HIST event N=5, CheckLock, all default checks", **full),
         H(ONESHOT, "hist_c01_n5", "hold", replay=("oneshot_hist_noop", 0), mask=P(1), est_s=200, bounds="E-HIST oneshot N=5, all default checks", **full),
         H(STATE, "hist_c01_n5", "hold", replay=("state_hist_noop", 0), mask=P(1), est_s=300, bounds="E-HIST state-broadcast N=5, all default checks", **full),
-        H(TIMER, "hist_c01_k3_drop_a4", "hold", replay=("timer_hist_noop", 4 | (1 << 11)), mask=P(1), est_s=300, est_gb=3, timeout=900, bounds="E-HIST timer 4 operations {poll, drop, advance}: dropped futures never woken, no panic"),
+        H(TIMER, "hist_c01_k3_drop_a4", "hold", replay=("timer_hist_noop", 4 | (1 << 11)), mask=P(1), est_s=300, est_gb=3, timeout=1500, bounds="E-HIST timer 4 operations {poll, drop, advance}: dropped futures never woken, no panic"),
     ]
     thorough = quick + [
         H(MUTEX, "hist_c01_n6_check", "hold", replay=("mutex_hist_check", 2), mask=P(1), est_s=900, timeout=3000, bounds="E-HIST mutex N=6 CheckLock", **full),
@@ -564,7 +564,7 @@ def c17_prop():
                         (STATE, "state-broadcast")):
         quick.append(H(mod, "step_c17", "step", est_s=60, est_gb=2, bounds="E-STEP %s: is_terminated() == 'completed' after any operation from any state" % what))
     quick.append(H(TIMER, "step_c17_poll", "step", est_s=100, est_gb=2, bounds="E-STEP timer K=4: is_terminated() after poll from any state"))
-    quick.append(H(TIMER, "step_c17_drop", "step", est_s=200, est_gb=3, timeout=900, bounds="E-STEP timer K=3: is_terminated() of the others after a drop"))
+    quick.append(H(TIMER, "step_c17_drop", "step", est_s=200, est_gb=3, timeout=1500, bounds="E-STEP timer K=3: is_terminated() of the others after a drop"))
     quick += [H(m, n, "panic", profile="full", est_s=15, bounds="poll after completion must panic (sentinel after the second poll unreachable)")
               for (m, n) in ((MUTEX, "repoll_panics"), (SEM, "repoll_panics"), (EVENT, "repoll_panics"), (ONESHOT, "repoll_panics"),
                              (ONESHOT_BC, "repoll_panics"), (STATE, "repoll_panics"), (TIMER, "repoll_panics"), (TIMER, "repoll_panics_send_facade"),
@@ -575,23 +575,24 @@ def c17_prop():
             quick.append(H(MPMC, "step_c17_c%d_%s" % (cap, cn), "step", est_s=60, est_gb=1.5, bounds="E-STEP mpmc capacity %d class %s: is_terminated()" % (cap, cn)))
     quick += [
         H(MUTEX, "hist_c17_n5", "hold", replay=("mutex_hist_noop", 2), mask=P(17), est_s=90, bounds="E-HIST mutex N=5: is_terminated() after every operation"),
-        H(SEM, "hist_c17_x_p2_n5", "hold", replay=("sem_hist_noop", sem_cfg(2, 2)), mask=P(17), est_s=300, est_gb=3, bounds="E-HIST semaphore N=5"),
+        H(SEM, "hist_c17_x_p2_n4", "hold", replay=("sem_hist_noop", sem_cfg(2, 2)), mask=P(17), est_s=150, est_gb=3, bounds="E-HIST semaphore N=4 (2 fixed polls + 2)"),
         H(EVENT, "hist_c17_n5", "hold", replay=("event_hist_noop", 2), mask=P(17), est_s=80, bounds="E-HIST event N=5"),
         H(ONESHOT, "hist_c17_n5", "hold", replay=("oneshot_hist_noop", 0), mask=P(17), est_s=80, bounds="E-HIST oneshot N=5"),
         H(STATE, "hist_c17_n5", "hold", replay=("state_hist_noop", 0), mask=P(17), est_s=150, bounds="E-HIST state-broadcast N=5"),
-        H(TIMER, "hist_c17_k3_drop_a4", "hold", replay=("timer_hist_noop", 4 | (1 << 11)), mask=P(17), est_s=250, est_gb=3, timeout=900, bounds="E-HIST timer 4 operations {poll, drop, advance}"),
-        H(MPMC, "hist_c17_c1_ss_p1_n4", "hold", replay=("mpmc_hist_noop", mpmc_cfg(1, "ss", 1, 1)), mask=P(17), est_s=400, est_gb=5, timeout=900,
+        H(TIMER, "hist_c17_k3_drop_a4", "hold", replay=("timer_hist_noop", 4 | (1 << 11)), mask=P(17), est_s=250, est_gb=3, timeout=1500, bounds="E-HIST timer 4 operations {poll, drop, advance}"),
+        H(MPMC, "hist_c17_c1_ss_p1_n4", "hold", replay=("mpmc_hist_noop", mpmc_cfg(1, "ss", 1, 1)), mask=P(17), est_s=400, est_gb=5, timeout=1500,
           bounds="E-HIST mpmc capacity 1 with a ChannelStream (alphabet: poll send, poll receive/stream, close): items = what successive receives return, "
                  "None once closed and drained, terminated from then on; N=4 (first operation fixed)"),
-        H(MPMC, "hist_c17_c0_ss_p0_n4", "hold", replay=("mpmc_hist_noop", mpmc_cfg(0, "ss", 0, 1)), mask=P(17), est_s=400, est_gb=5, timeout=900,
-          bounds="E-HIST mpmc capacity 0 with a ChannelStream, N=4"),
         mpmc_hist("c17", 17, 0, "ca", 5, 5),
         mpmc_hist("c17", 17, 1, "ca", 3, 5),
         H(MPMC, "step_c17_c2_dc", "step", est_s=60, est_gb=1.5, bounds="E-STEP mpmc capacity 2 drop/cancel: cancel() terminates the send future in every state"),
-        H(LIFE, "life_c17_state_n3", "hold", replay=("life_state", 0), mask=P(17), est_s=300, est_gb=8, timeout=900,
+        H(LIFE, "life_c17_state_n3", "hold", replay=("life_state", 0), mask=P(17), est_s=300, est_gb=8, timeout=1500,
           bounds="shared state-broadcast receive future: is_terminated() over handle clone/drop histories, 3 operations"),
     ]
     thorough = quick + [
+        H(SEM, "hist_c17_x_p2_n5", "hold", replay=("sem_hist_noop", sem_cfg(2, 2)), mask=P(17), est_s=500, est_gb=3, timeout=3000, bounds="E-HIST semaphore N=5"),
+        H(MPMC, "hist_c17_c0_ss_p0_n4", "hold", replay=("mpmc_hist_noop", mpmc_cfg(0, "ss", 0, 1)), mask=P(17), est_s=700, est_gb=5, timeout=3000,
+          bounds="E-HIST mpmc capacity 0 with a ChannelStream, N=4 (took 605 s in the quick tier: moved here)"),
         H(MUTEX, "hist_c17_n7", "hold", replay=("mutex_hist_noop", 2), mask=P(17), est_s=900, timeout=3000, bounds="E-HIST mutex N=7"),
         H(EVENT, "hist_c17_n7", "hold", replay=("event_hist_noop", 2), mask=P(17), est_s=900, timeout=3000, bounds="E-HIST event N=7"),
         H(ONESHOT_BC, "hist_c17_n7", "hold", replay=("oneshot_bc_hist_noop", 0), mask=P(17), est_s=900, timeout=3000, bounds="E-HIST oneshot-broadcast N=7"),
@@ -613,22 +614,23 @@ def c18_prop():
     quick = [
         H(LIFE, "c18_selftest", "hold", est_s=10, bounds="the allocator stubs are live: armed Box/Vec allocations are counted", **st),
         H(MUTEX, "hist_c18_n5", "hold", replay=("mutex_hist_noop", 2), mask=P(18), est_s=100, bounds="E-HIST mutex N=5 with counting allocator stubs", **st),
-        H(SEM, "hist_c18_p2_n5", "hold", replay=("sem_hist_noop", sem_cfg(2, 2)), mask=P(18), est_s=400, est_gb=3, bounds="E-HIST semaphore N=5", **st),
+        H(SEM, "hist_c18_p2_n4", "hold", replay=("sem_hist_noop", sem_cfg(2, 2)), mask=P(18), est_s=150, est_gb=3, bounds="E-HIST semaphore N=4 (2 fixed polls + 2)", **st),
         H(EVENT, "hist_c18_n5", "hold", replay=("event_hist_noop", 2), mask=P(18), est_s=80, bounds="E-HIST event N=5", **st),
         H(ONESHOT, "hist_c18_n5", "hold", replay=("oneshot_hist_noop", 0), mask=P(18), est_s=100, bounds="E-HIST oneshot N=5", **st),
         H(ONESHOT_BC, "hist_c18_n5", "hold", replay=("oneshot_bc_hist_noop", 0), mask=P(18), est_s=100, bounds="E-HIST oneshot-broadcast N=5", **st),
         H(STATE, "hist_c18_n5", "hold", replay=("state_hist_noop", 0), mask=P(18), est_s=200, bounds="E-HIST state-broadcast N=5", **st),
-        H(TIMER, "hist_c18_stub_k3_drop_a4", "hold", replay=("timer_hist_noop", 4 | (1 << 11)), mask=P(18), est_s=300, est_gb=3, timeout=900, bounds="E-HIST timer 4 operations {poll, drop, advance}", **st),
+        H(TIMER, "hist_c18_stub_k3_drop_a4", "hold", replay=("timer_hist_noop", 4 | (1 << 11)), mask=P(18), est_s=300, est_gb=3, timeout=1500, bounds="E-HIST timer 4 operations {poll, drop, advance}", **st),
         H(MPMC, "hist_c18_c1_sr_p5_n5", "hold", replay=("mpmc_hist_noop", mpmc_cfg(1, "sr", 5)), mask=P(18), est_s=300, est_gb=4, bounds="E-HIST mpmc capacity 1", **st),
         H(MPMC, "hist_c18_c0_cl_p3_n5", "hold", replay=("mpmc_hist_noop", mpmc_cfg(0, "cl", 3)), mask=P(18), est_s=300, est_gb=4, bounds="E-HIST mpmc capacity 0", **st),
         H(MPMC, "hist_c18_c2_tr_p0_n4", "hold", replay=("mpmc_hist_noop", mpmc_cfg(2, "tr", 0)), mask=P(18), est_s=300, est_gb=4, bounds="E-HIST mpmc capacity 2", **st),
-        H(LIFE, "life_c18_oneshot_bc_n3", "hold", replay=("life_oneshot_bc", 0), mask=P(18), est_s=300, est_gb=8, timeout=900,
+        H(LIFE, "life_c18_oneshot_bc_n3", "hold", replay=("life_oneshot_bc", 0), mask=P(18), est_s=300, est_gb=8, timeout=1500,
           bounds="shared oneshot-broadcast: handle clone/drop and polling after construction", **st),
         H(RING, "fixed_c18_c1_n3", "hold", replay=("ring_hist_fixed", 1), mask=P(18), est_s=20, bounds="FixedHeapBuf capacity 1: 3 push/pop operations after with_capacity() never reach the allocator", **st),
         H(RING, "fixed_c18_c2_n3", "hold", replay=("ring_hist_fixed", 2), mask=P(18), est_s=30, bounds="FixedHeapBuf capacity 2, 3 operations (fills the buffer completely)", **st),
         H(RING, "array_c18_c2_n4", "hold", replay=("ring_hist_array", 2), mask=P(18), est_s=20, bounds="ArrayBuf capacity 2, 4 operations", **st),
     ]
     thorough = quick + [
+        H(SEM, "hist_c18_p2_n5", "hold", replay=("sem_hist_noop", sem_cfg(2, 2)), mask=P(18), est_s=500, est_gb=3, timeout=3000, bounds="E-HIST semaphore N=5", **st),
         H(LIFE, "life_c18_state_n3", "hold", replay=("life_state", 0), mask=P(18), est_s=600, est_gb=10, timeout=3000, bounds="shared state-broadcast handles", **st),
     ]
     return {"quick": quick, "thorough": thorough,
